@@ -308,9 +308,27 @@ pub struct RuleHooks {
     pub in_condition: Option<std::rc::Rc<dyn Fn(&dyn std::any::Any)>>,
 }
 
+thread_local! {
+    /// when set, unconditional rules without the substitution form are built by the crate's own
+    /// `Rewrite::new` from their printed patterns (its searcher / applier, `apply_substs_cond`)
+    /// instead of the simulator-owned searcher / applier (which carry the probe and clock seams)
+    pub static VIA_CRATE: std::cell::Cell<bool> = std::cell::Cell::new(false);
+}
+
+fn has_subst(p: &Pat) -> bool {
+    match p {
+        Pat::Var(_) => false,
+        Pat::Node { kids, .. } => kids.iter().any(|(_, k)| has_subst(k)),
+        Pat::Subst(..) => true,
+    }
+}
+
 pub fn make_rewrite<N: Analysis<LA> + 'static>(rule: &Rule, nm: &mut Naming, probe: Option<std::rc::Rc<dyn Fn(&EGraph<LA, N>, &Subst)>>, on_search: Option<std::rc::Rc<dyn Fn()>>) -> Rewrite<LA, N> {
     let l: Pattern<LA> = rule.l.to_pattern::<LA>(nm);
     let r: Pattern<LA> = rule.r.to_pattern::<LA>(nm);
+    if VIA_CRATE.with(|c| c.get()) && rule.cond.is_none() && rule.cond2.is_none() && rule.cond_eq.is_none() && !has_subst(&rule.l) && !has_subst(&rule.r) {
+        return Rewrite::new(rule.name, &l.to_string(), &r.to_string());
+    }
     if let (Some((s1, v1)), Some((s2, v2))) = (rule.cond, rule.cond2) {
         // built entirely by the crate: string patterns, Rewrite::new_if, and / not / slot_free_in
         let n1 = nm.slot(s1).to_string()[1..].to_string();
